@@ -1150,6 +1150,10 @@ been initialized
                     )
 
             return renderer(render_data, render_args), padding
+        except BaseException:
+            # The caller never gets to own the render data
+            render_data.finalize()
+            raise
         finally:
             if finalize:
                 render_data.finalize()
